@@ -216,6 +216,8 @@ type Path struct {
 	locks    map[string]*lockState
 	ghost    map[string]Value
 	allocCap int64
+	eraser      bool
+	eraserCells map[string]*cellState
 	maxAlloc *Term
 	usedStub bool
 	unknownBranches int
